@@ -569,9 +569,9 @@ pub fn shrink_strategy() -> impl Strategy<Value = ShrinkCase> {
 }
 
 pub fn run(ctx: &Ctx) {
-    ctx.run_prop_opts("shrink-keep", ctx.cases(40, 800), 24, shrink_strategy(), check_shrink);
-    ctx.run_prop_opts("single-thread", ctx.cases(60, 1200), 48, workload_strategy(), |w| check_workload(ctx, w));
-    ctx.run_prop_opts("huge-holes", ctx.cases(60, 600), 24, huge_strategy(), |w| check_workload(ctx, w));
+    ctx.run_prop_opts("shrink-keep", ctx.cases(40, 300), 24, shrink_strategy(), check_shrink);
+    ctx.run_prop_opts("single-thread", ctx.cases(60, 400), 48, workload_strategy(), |w| check_workload(ctx, w));
+    ctx.run_prop_opts("huge-holes", ctx.cases(60, 200), 24, huge_strategy(), |w| check_workload(ctx, w));
     ctx.extra("max_ratio_peakheld_to_round_total_plus_1MiB_milli", serde_json::json!(MAX_RATIO_MILLI.with(|m| m.get())));
     crate::galloc_driver::run(ctx);
 }
